@@ -258,11 +258,11 @@ def main():
         print(__doc__)
         sys.exit(2)
     relfile = a[0]
-    opts = dict(props=None, workers=6, max=200, seed=1, lines=None, list=False, keep_targets=False)
+    opts = dict(props=None, workers=6, max=200, seed=1, lines=None, list=False, keep_targets=False, retry=False, retry_from=None)
     i = 1
     while i < len(a):
         k = a[i].lstrip("-").replace("-", "_")
-        if k in ("list", "keep_targets"):
+        if k in ("list", "keep_targets", "retry"):
             opts[k] = True
             i += 1
         else:
@@ -286,6 +286,18 @@ def main():
     rnd.shuffle(muts)
     total = len(muts)
     muts = muts[: int(opts["max"])]
+    if opts["retry"]:
+        # only the survivors of earlier sweeps of this file (any results directory), e.g. with more properties
+        import glob
+        prev = set()
+        for d in ([opts["retry_from"]] if opts["retry_from"] else ["/tmp/ms/results", "/tmp/ms2/results", f"{BASE}/results"]):
+            for fn in glob.glob(os.path.join(d, relfile.replace("/", "_") + ".w*.jsonl")):
+                for l in open(fn):
+                    r = json.loads(l)
+                    if r["verdict"] == "SURVIVOR":
+                        prev.add((r["line"] - 1, r["op"], r["new"]))
+        muts = [(i, op, nl) for (i, op, nl) in [(i, op, nl) for i in lines for (op, nl) in mutants_of_line(src[i])] if (i, op, nl.strip()) in prev]
+        total = len(prev)
     print(f"{relfile}: {total} mutation sites, running {len(muts)} against {' '.join(props)}")
     if opts["list"]:
         for m in muts[:40]:
